@@ -82,6 +82,7 @@ fn run_case<const N: usize>(slot: usize, bs: usize, ops: &[&str]) -> String {
             continue;
         }
         f.log.clear();
+        let ops_before = f.ops;
         let mut tok = match t[0] {
             "start" => {
                 let sz: u32 = t[1].parse().unwrap();
@@ -255,6 +256,10 @@ fn run_case<const N: usize>(slot: usize, bs: usize, ops: &[&str]) -> String {
         let lg = f.take_log();
         if !lg.is_empty() {
             tok.push_str(&format!("[{lg}]"));
+        }
+        // number of device operations (reads included) this script op issued
+        if f.ops != ops_before && !passive && !f.dead {
+            tok.push_str(&format!("#{}", f.ops - ops_before));
         }
         out.push(tok);
     }
